@@ -142,7 +142,7 @@ Definition lru_set_capacity (l : lru_state) (n : N) : lru_state :=
   else {| lru_cap := Some n; lru_set := lru_set l |}.
 
 (* Lru::for_each_evicted: pop the front while len > cap. Returns (evicted, remaining). *)
-Fixpoint pop_excess (cap : N) (l : list N) (fuel : nat) : list N * list N :=
+Fixpoint pop_excess (cap : N) (l : list N) (fuel : nat) {struct fuel} : list N * list N :=
   match fuel with
   | O => ([], l)
   | S fuel' =>
